@@ -357,8 +357,15 @@ var opDefs = []opDef{
 		pin := uint32(rng.Pick(r, 0, 1, 999999, 1000000, 7531, r.Intn(1000000), int(r.U32()>>8)))
 		formats := []types.CardFormat{}
 		ft := []string{}
-		for i := r.Intn(4) * r.Intn(2); i > 0; i-- {
+		nf := r.Intn(4) * r.Intn(2)
+		if r.Chance(1, 40) {
+			nf = 257 // a list longer than 255 entries
+		}
+		for i := nf; i > 0; i-- {
 			f := rng.Pick(r, types.WiegandAny, types.Wiegand26, types.Wiegand26, types.CardFormat(2), types.CardFormat(255))
+			if nf == 257 && i > 1 {
+				f = rng.Pick(r, types.Wiegand26, types.CardFormat(2)) // only the last entry may accept any number
+			}
 			formats = append(formats, f)
 			ft = append(ft, fmt.Sprint(uint8(f)))
 		}
@@ -527,7 +534,7 @@ var opDefs = []opDef{
 	}},
 	{name: "SetDoorPasscodes", code: 0x8c, reply: messages.SetDoorPasscodesResponse{}, gen: func(r *rng.R, dev uint32, wild bool) ([]string, func(u uhppote.IUHPPOTE) string) {
 		door := rng.Pick(r, uint8(1), 2, 3, 4, 1, 2, 3, 4, 0, 5, 255, r.U8())
-		n := r.Intn(7)
+		n := rng.Pick(r, r.Intn(7), r.Intn(7), r.Intn(7), 256, 300)
 		var ps []uint32
 		ts := []string{}
 		for i := 0; i < n; i++ {
@@ -905,7 +912,11 @@ func streamOps(c *ctx) {
 		dev := genDev(r)
 		g := genCfg(r, dev)
 		u, d := newClient(g.devices, g.broadcast)
-		for k := 0; k < 2+r.Intn(12); k++ {
+		calls := 2 + r.Intn(12)
+		if h == 0 {
+			calls = 300 // one long history: the 256th call and beyond, failed calls in between
+		}
+		for k := 0; k < calls; k++ {
 			op := opDefs[r.Intn(len(opDefs))]
 			arr, cls := genArrivals(r, op, dev, rng.Pick(r, "valid", "seq", "silence"))
 			runOp(c, u, d, g, op, dev, r.Chance(1, 6), arr, "phase/history", "arrivals/"+cls)
